@@ -65,7 +65,7 @@ func (g *fnGen) execBlock(b *ssa.BasicBlock, st *state) {
 		case *ssa.DebugRef:
 		case *ssa.Alloc:
 			t := deref(x.Type())
-			if !x.Heap {
+			if regAlloc(x) {
 				st.regs[x] = g.R.zero(t)
 			} else {
 				r := g.newRef(st, "new")
@@ -222,7 +222,23 @@ func (g *fnGen) execBlock(b *ssa.BasicBlock, st *state) {
 		case *ssa.RunDefers:
 			for i := len(st.defers) - 1; i >= 0; i-- {
 				d := st.defers[i]
+				if mc, ok := d.Call.Value.(*ssa.MakeClosure); ok {
+					if cf, ok := mc.Fn.(*ssa.Function); ok && recoverOnlyClosure(cf) {
+						// nothing panicked on this path: recover() returns nil and the closure does nothing
+						g.assumptions["a deferred closure of the form `if r := recover(); r != nil {…}` is a no-op on paths without a panic; the panicking path is checked on the closure itself"] = true
+						continue
+					}
+				}
 				g.doCallWithArgs(st, &d.Call, d, nil, g.deferArgs[d])
+				if mc, ok := d.Call.Value.(*ssa.MakeClosure); ok {
+					for _, bnd := range mc.Bindings {
+						if al, ok := bnd.(*ssa.Alloc); ok && al.Heap && regAlloc(al) {
+							h := g.freshConst("dfr!"+al.Comment, g.R.sortOf(deref(al.Type())))
+							g.typeFacts(st, h, deref(al.Type()))
+							st.regs[al] = h
+						}
+					}
+				}
 			}
 			st.defers = nil
 		case *ssa.Go:
@@ -353,7 +369,7 @@ func (g *fnGen) nilCheckAddr(st *state, v ssa.Value, a *addr, instr ssa.Instruct
 	if _, isGlobal := v.(*ssa.Global); isGlobal {
 		return
 	}
-	if al, ok := v.(*ssa.Alloc); ok && al.Heap {
+	if al, ok := v.(*ssa.Alloc); ok && !regAlloc(al) {
 		return
 	}
 	if _, ok := v.(*ssa.IndexAddr); ok {
@@ -383,8 +399,10 @@ func (g *fnGen) execUnOp(st *state, x *ssa.UnOp) {
 			g.prov[x] = a.prov
 		}
 		if a.kind == akReg && len(a.path) == 0 {
-			if p, ok := g.regProv[a.reg]; ok {
-				g.prov[x] = p
+			if ra, isAl := a.reg.(*ssa.Alloc); isAl {
+				if p, ok := g.regProv[ra]; ok {
+					g.prov[x] = p
+				}
 			}
 		}
 	case token.NOT:
@@ -428,7 +446,7 @@ func (g *fnGen) execUnOp(st *state, x *ssa.UnOp) {
 
 // provStore: remember that a register holds a value loaded from a guarded field
 func (g *fnGen) provStore(x *ssa.Store) {
-	if a, ok := x.Addr.(*ssa.Alloc); ok && !a.Heap {
+	if a, ok := x.Addr.(*ssa.Alloc); ok && regAlloc(a) {
 		if p, ok := g.prov[x.Val]; ok {
 			g.regProv[a] = p
 		} else {
